@@ -861,9 +861,22 @@ func (c *CertificateContext) Sign(alg SignatureAlgorithm) (*Certificate, error) 
 		return nil, errors.New("cert: provided IssuerContext is nil. can't sign")
 	}
 
+	//determine hash algorithm
+	hashAlgId, hashAlg, sigAlgOid, wantKey, err := resolveAlg(alg)
+	if err != nil {
+		return nil, err
+	}
+
+	//RSA PKCS#1 v1.5 identifiers carry NULL parameters, ECDSA ones carry none
+	var sigAlgParams asn1.RawValue
+	if wantKey == rsaKey {
+		sigAlgParams = asn1.NullRawValue
+	}
+
 	if out.TBSCertificate.SignatureAlgorithm.Algorithm == nil {
 		out.TBSCertificate.SignatureAlgorithm = pkix.AlgorithmIdentifier{
-			Algorithm: sigAlgOids[alg],
+			Algorithm:  sigAlgOids[alg],
+			Parameters: sigAlgParams,
 		}
 	}
 	out.TBSCertificate.Issuer = c.Issuer.IssuerDn
@@ -885,18 +898,13 @@ func (c *CertificateContext) Sign(alg SignatureAlgorithm) (*Certificate, error) 
 		return nil, err
 	}
 
-	//determine hash algorithm
-	var digest []byte
-	var hashAlgId crypto.Hash
-	var hashAlg hash.Hash
-	var wantKey keyType
-	hashAlgId, hashAlg, out.SignatureAlgorithm.Algorithm, wantKey, err = resolveAlg(alg)
-	if err != nil {
-		return nil, err
+	out.SignatureAlgorithm = pkix.AlgorithmIdentifier{
+		Algorithm:  sigAlgOid,
+		Parameters: sigAlgParams,
 	}
 
 	hashAlg.Write(b)
-	digest = hashAlg.Sum(nil)
+	digest := hashAlg.Sum(nil)
 
 	//convert key and sign
 	var signature []byte
